@@ -46,6 +46,8 @@ for _first in (True, False):
         MODES.append(("insert_python", {"run_first": _first, "replace": _repl, "callee": "hit"}))
         MODES.append(("insert_python", {"run_first": _first, "replace": _repl, "callee": "hit-structured"}))
 MODES.append(("insert_python", {"run_first": True, "replace": False, "callee": "exec"}))
+MODES.append(("insert_python", {"run_first": True, "replace": False, "callee": "hit-twins"}))
+MODES.append(("insert_python", {"run_first": False, "replace": True, "callee": "hit-twins"}))
 MODES.append(("insert_python", {"run_first": False, "replace": False, "callee": "hit-noargs"}))
 for _pop in (True, False):
     MODES.append(("append_python", {"pop": _pop, "callee": "eval"}))
@@ -199,6 +201,11 @@ def inject(f, p, mode, opt):
         if callee == "hit-structured":
             p.insert_python("INJ", [1, "two", [3]], {"k": [4, 5], "e": {}}, module="vp_sink", attr="hit", **kw)
             return ("hit", ("INJ", [1, "two", [3]], {"k": [4, 5], "e": {}}), {}), ("vp_sink", "hit"), where
+        if callee == "hit-twins":
+            # numbers that compare equal yet are different values / kinds, next to each other
+            args = (1, 1.0, 0, 0.0, -0.0, [2, 2.0, 2], {"a": 3, "b": 3.0, "c": -0.0}, 2 ** 31, 2147483648.0, 1)
+            p.insert_python("INJ", *args, module="vp_sink", attr="hit", **kw)
+            return ("hit", ("INJ",) + args, {}), ("vp_sink", "hit"), where
         if callee == "hit-noargs":
             p.insert_python(module="vp_sink", attr="hit", **kw)
             return ("hit", (), {}), ("vp_sink", "hit"), where
@@ -235,9 +242,20 @@ REFUSED = {
 }
 
 
+def kinds(x):
+    """numeric leaves with their exact kind and spelling (1 / 1.0 / True / -0.0 all differ); other leaves None"""
+    if type(x) in (int, float, bool):
+        return (type(x).__name__, repr(x))
+    if isinstance(x, (list, tuple)):
+        return tuple(kinds(y) for y in x)
+    if isinstance(x, dict):
+        return tuple((kinds(k), kinds(v)) for k, v in x.items())
+    return None
+
+
 def veq(a, b):
     try:
-        return type(a) is type(b) and a == b
+        return type(a) is type(b) and a == b and kinds(a) == kinds(b)
     except Exception:
         return False
 
@@ -314,7 +332,7 @@ def check(ctx, f, analysis, label, base, mode, opt):
         else:
             want_log = blog + [inj_event]
         agg.count("effect_logs_compared")
-        if rlog != want_log:
+        if rlog != want_log or kinds(rlog) != kinds(want_log):
             n_inj = sum(1 for e in rlog if e == inj_event) - sum(1 for e in blog if e == inj_event) if inj_event else 0
             if inj_event is not None and n_inj != 1:
                 k2 = f"injected-call-count:{tag}"
